@@ -109,6 +109,7 @@ def wf (y : Style) (st : State) : Bool :=
   st.playersMinimum.all (· < 2 ^ 32) && st.players.length < 256 && st.teams.length < 256 &&
   st.players.all wfPlayer && st.teams.all wfTeam && st.extras.all wfExtra && distinctKeys st.extras &&
   y.playerCols.all (wfCol [bs "player_", bs "score_", bs "ping_", bs "team_"]) &&
-  y.teamCols.all (wfCol [bs "team_t", bs "score_t"]) && (reply y st).length ≤ 2048
+  y.teamCols.all (wfCol [bs "team_t", bs "score_t"]) && distinctKeys y.playerCols && distinctKeys y.teamCols &&
+  (reply y st).length ≤ 2048
 
 end Gd.Gs2.Spec
